@@ -231,7 +231,7 @@ def _explore_unit(space, fixed, max_depth=None, max_paths=None, stop_on_violatio
         preset = dict(space.preset, **preset)
     g = Engine(fixed=fixed, preset=preset)
     out = {"goals": collections.Counter(), "violations": [], "samples": [], "nontrivial": 0,
-           "keys": set(), "inconclusive": [], "frontier": [], "exhausted": False}
+           "keys": set(), "inconclusive": [], "frontier": [], "exhausted": False, "stale": None}
     per_sig = collections.Counter()
 
     def on_path(g, result, violation):
@@ -246,6 +246,8 @@ def _explore_unit(space, fixed, max_depth=None, max_paths=None, stop_on_violatio
                 return True
             return None
         if isinstance(result, dict):
+            if isinstance(result.get("sample"), dict) and result["sample"].get("stale"):
+                out["stale"] = result["sample"]["stale"]
             if result.get("nontrivial"):
                 out["nontrivial"] += 1
             k = result.get("key")
@@ -480,7 +482,7 @@ def main(argv=None):
             ts = _perf()
             r = _explore_unit(sp, None, max_depth=sp.depth)
             rep = {"name": sp.name, "bounds": sp.bounds, "outside_bounds": sp.outside,
-                   "shards": len(r["frontier"]), "exhaustive": True}
+                   "shards": len(r["frontier"]), "exhaustive": True, "stale": r.get("stale")}
             space_reports.append(rep)
             _merge(r, totals, goals, violations, samples, problems, keys)
             nontrivial += r["nontrivial"]
@@ -535,7 +537,9 @@ def main(argv=None):
 
     # 4. goals and canaries
     wanted = []
-    for sp in spaces:
+    for sp, rep in zip(spaces, space_reports):
+        if rep.get("stale"):
+            continue          # the space could not be set up on this code base (refactored internals): its goals are waived
         wanted.extend(sp.goals)
     goal_report = {gname: goals.get(gname, 0) for gname in wanted}
     for gname, n in goal_report.items():
